@@ -35,7 +35,7 @@ ASSUMPTIONS = [
 COMPONENTS = {"real": ["atomica Model/Population/Initialization/ParameterSet/Project.save/load/calibration spreadsheet", "sciris saveobj/loadobj", "pandas/openpyxl/xlsxwriter"], "stub": ["none (crash = harness stops using the run at index i)"]}
 
 _CORPUS = None
-PROJECTS = ["udt", "usdt", "tb_simple", "timed_test", "udt_dyn", "hiv", "hypertension", "timed_transfer", "timed_transfer_2", "timed_transfer_3", "service", "dt", "tb_simple_dyn", "hiv_dyn", "hypertension_dyn", "diabetes", "cervicalcancer", "uncertainty"]
+PROJECTS = ["udt", "usdt", "tb_simple", "timed_test", "timed_indirect", "timed_indirect2", "timed_eligibility", "udt_dyn", "hiv", "hypertension", "timed_transfer", "timed_transfer_2", "timed_transfer_3", "service", "dt", "tb_simple_dyn", "hiv_dyn", "hypertension_dyn", "diabetes", "cervicalcancer", "uncertainty"]
 HEAVY = ["timed_tb", "tb"]
 DTS = [0.25, 0.5, 1.0, 0.125, 0.25, 0.0625, 1.0 / 12, 0.1, 0.2, 0.3, 1.0 / 52]
 MEDIA = ["live", "dcp", "binary", "spreadsheet"]
